@@ -24,6 +24,10 @@ DECIDING = ["documents_compared", "core_searches"]
 SCRUB = "! Sensitive line SCRUBBED by netconan"
 
 
+LEAD_CTX = ['"', "'", "{", ":", 'something " ', "something ' ", "something { ", "something : ", "[", "("]
+TAIL_CTX = ['"', "'", "}", '" something', "' something", "} something", ";", ",", "]"]
+
+
 class LogCapture(logging.Handler):
     def __init__(self):
         super().__init__(level=logging.INFO)
@@ -110,7 +114,7 @@ def cases(ctx):
         if S.c07_leaky(f, cls, ""):
             continue
         yield {"kind": "doc", "sseed": rng.getrandbits(32), "v1": rng.getrandbits(32), "v2": rng.getrandbits(32), "salt": "saltForTest",
-               "spec": [{"form": f["id"], "cls": [cls], "ids": [0]}], "straddle": rng.choice([8192, 8192, 16384, 4096, 65536]),
+               "spec": [{"form": f["id"], "cls": [cls], "ids": [0]}], "straddle": rng.choice([8192, 8192, 8192, 4096]),
                "straddle_at": rng.random()}
     # multi-line documents with repetition patterns
     for _ in range(ctx.per_shard(ctx.pick(800, 20000))):
@@ -144,6 +148,9 @@ def make_texts(case):
             "trail": srng.choice(form["trail"]),
             "fillseed": srng.getrandbits(32),
             "j9seed": srng.getrandbits(32),
+            # allowed leading / trailing context around the whole statement (quotes, braces, a colon, other text)
+            "lead": srng.choice(LEAD_CTX) if srng.random() < 0.3 else "",
+            "tail": srng.choice(TAIL_CTX) if srng.random() < 0.3 else "",
             "eol": "\n",
         })
     md5len = {}
@@ -176,6 +183,9 @@ def make_texts(case):
                 slot_texts.append(txt)
             line, parts, _ = S.render(random.Random(st["fillseed"]), form, slot_texts, indent=st["indent"],
                                       quote=tuple(st["quote"]), trail=st["trail"] if not case.get("straddle") else "")
+            if (st["lead"] or st["tail"]) and not case.get("straddle") and form["quote"]:
+                ind = len(line) - len(line.lstrip())
+                line = line[:ind] + st["lead"] + line[ind:] + st["tail"]
             if case.get("straddle"):
                 # same padding for both valuations (computed from the first one): the secret of V1 straddles
                 # the boundary at a chosen fraction of its length
